@@ -518,7 +518,8 @@ theorem spec_iff_ok (cs : Case) (o : Obs) : spec cs o = true ↔ classify cs o =
     and what is left is precisely the footprint of schedule (a) with nothing else wrong (`isCloseBeforeRunning`) -/
 theorem known_finding_a_exclusive (cs : Case) (o : Obs) :
     classify cs o = .closeBeforeRunning ↔
-      (o.survived = true ∧ (o.closeCalled = true → o.closeReturned = true) ∧ o.leak = true ∧ isCloseBeforeRunning cs o = true) := by
+      (o.survived = true ∧ o.closePanicked = false ∧ (o.closeCalled = true → o.closeReturned = true) ∧ o.firstCloseBad = false ∧
+       o.leak = true ∧ isCloseBeforeRunning cs o = true) := by
   simp only [classify]
   repeat' split
   all_goals simp_all
@@ -526,8 +527,8 @@ theorem known_finding_a_exclusive (cs : Case) (o : Obs) :
 /-- KNOWN FINDING (b) likewise -/
 theorem known_finding_b_exclusive (cs : Case) (o : Obs) :
     classify cs o = .closeBeforeServiceStart ↔
-      (o.survived = true ∧ (o.closeCalled = true → o.closeReturned = true) ∧ o.leak = true ∧
-       isCloseBeforeRunning cs o = false ∧ isCloseBeforeServiceStart cs o = true) := by
+      (o.survived = true ∧ o.closePanicked = false ∧ (o.closeCalled = true → o.closeReturned = true) ∧ o.firstCloseBad = false ∧
+       o.leak = true ∧ isCloseBeforeRunning cs o = false ∧ isCloseBeforeServiceStart cs o = true) := by
   simp only [classify]
   repeat' split
   all_goals simp_all
@@ -537,16 +538,17 @@ theorem known_finding_b_exclusive (cs : Case) (o : Obs) :
 theorem known_findings_only_at_creation (cs : Case) (o : Obs)
     (h : classify cs o = .closeBeforeRunning ∨ classify cs o = .closeBeforeServiceStart) : o.closedAtNs = 0 := by
   rcases h with h | h
-  · have := ((known_finding_a_exclusive cs o).mp h).2.2.2
+  · have := ((known_finding_a_exclusive cs o).mp h).2.2.2.2.2
     simp only [isCloseBeforeRunning, Bool.and_eq_true, decide_eq_true_eq] at this
     exact this.1.1.1.1.1.1.1.1
-  · have := ((known_finding_b_exclusive cs o).mp h).2.2.2.2
+  · have := ((known_finding_b_exclusive cs o).mp h).2.2.2.2.2.2
     simp only [isCloseBeforeServiceStart, Bool.and_eq_true, decide_eq_true_eq] at this
     exact this.1.1.1.1.1.1.1.1.1
 
 /-- the model's prediction for a Close without any panic, written out -/
 private def quietObs (cs : Case) (t n k : Nat) : Obs :=
-  { survived := true, closeCalled := true, closeReturned := true, closedAtNs := t, errNotRunning := n, errNotStarted := k, errOther := 0,
+  { survived := true, closeCalled := true, closeReturned := true, closePanicked := false, firstCloseBad := false, progress := 1,
+    closedAtNs := t, errNotRunning := n, errNotStarted := k, errOther := 0,
     leakedServiceStart := n, leakedService := n + k, leakedAux := 0, leakedInflight := 0, ticking := decide (n + k > 0),
     bubbleEnded := decide (k = 0), after2ndServiceStart := 0, after2ndService := k,
     panicsInjected := 0, resumed := true, resumedWithinNs := cs.intervalNs, othersTicked := true, pipelineDone := true }
@@ -565,7 +567,7 @@ theorem spec_model_clean_close (fx : Fixes) (cs : Case) (t n k : Nat) (ht : 0 < 
     spec cs (predict fx cs 0 0 0 true 0) = true ∧ spec cs (predict fx cs t n k true 0) = true ∧
     (predict fx cs t n k true 0).errNotRunning = 0 ∧ (predict fx cs t n k true 0).errNotStarted = 0 := by
   rw [predict_nopanic, predict_nopanic_late fx cs t n k ht]
-  simp [spec, quietObs, panicOk, Obs.leak, panicClauseApplies]
+  simp [spec, quietObs, panicOk, progressOk, progressDue, Obs.leak, panicClauseApplies]
 
 /-- … and on the model's prediction for `n ≥ 1` recoverers closed before they were running (schedule (a)) it fails with
     exactly the known-finding string -/
@@ -601,7 +603,8 @@ private theorem run_site (fx : Fixes) (site : String) (c : Bool) (n : Nat)
 
 /-- the model's prediction after one injected panic in scenario "panic", plugin settled, Close (at `t`) at the end -/
 private def panicObs (cs : Case) (t : Nat) (crashed : Bool) (nRun : Nat) : Obs :=
-  { survived := !crashed, closeCalled := !crashed, closeReturned := !crashed, closedAtNs := t, errNotRunning := 0, errNotStarted := 0, errOther := 0,
+  { survived := !crashed, closeCalled := !crashed, closeReturned := !crashed, closePanicked := false, firstCloseBad := false,
+    progress := if !crashed then 1 else 0, closedAtNs := t, errNotRunning := 0, errNotStarted := 0, errOther := 0,
     leakedServiceStart := 0, leakedService := 0, leakedAux := 0, leakedInflight := 0, ticking := false,
     bubbleEnded := !crashed, after2ndServiceStart := 0, after2ndService := 0, panicsInjected := 1, resumed := decide (nRun > 0),
     resumedWithinNs := if nRun > 0 then cs.intervalNs else 0, othersTicked := true, pipelineDone := !crashed }
@@ -628,7 +631,7 @@ theorem spec_model_panic_contained (cs : Case) (t : Nat) (hs : cs.scenario = "pa
     rcases h with h | h | h | h | h | h | h | h | h | h | h | h | h <;> rw [h] <;> exact run_site current _ false 1 (by decide)
   obtain ⟨s, hrun, hc, hn⟩ := key
   rw [predict_panic current cs t s hrun, hc, hn]
-  simp [spec, panicObs, panicOk, Obs.leak, panicClauseApplies, resumeBound, hs]
+  simp [spec, panicObs, panicOk, progressOk, progressDue, Obs.leak, panicClauseApplies, resumeBound, hs]
   omega
 
 /-- without the worker-group fix the model predicts that a pipeline panic kills the process; the oracle says so -/
@@ -651,9 +654,9 @@ theorem spec_reports_service_panic_not_resumed_old (cs : Case) (t : Nat) (h : cs
   rw [← h] at hrun
   rw [predict_panic _ cs t s hrun, hc, hn]
   constructor
-  · simp [spec, panicObs, panicOk, Obs.leak, panicClauseApplies, hs]
+  · simp [spec, panicObs, panicOk, progressOk, progressDue, Obs.leak, panicClauseApplies, hs]
   · have hcl : classify cs (panicObs cs t false 0) = .panicNotResumed := by
-      simp [classify, panicObs, Obs.leak, panicClauseApplies, hs]
+      simp [classify, panicObs, progressOk, progressDue, Obs.leak, panicClauseApplies, hs]
     unfold explain; rw [hcl]; rfl
 
 /-- without the v2 coordinator fix the model predicts that a panic in its log poll kills the process; the oracle says so -/
